@@ -55,6 +55,7 @@ pub fn owners(st: &Step) -> Vec<&'static str> {
             }
         }
         Step::Cof { .. } | Step::Pred { .. } | Step::Cofac { .. } => vec!["C03"],
+        Step::SArith { .. } => vec!["C11"],
         Step::Rand { g, .. } => {
             if *g == 0 {
                 vec!["C03"]
@@ -142,6 +143,7 @@ fn one(w: &mut World, i: usize, st: &Step, c: &mut Counters) -> Result<Option<(u
             | Step::Eq { .. }
             | Step::Pred { .. }
             | Step::Zero { .. }
+            | Step::SArith { .. }
             | Step::ToMont { .. }
             | Step::Batch { .. }
             | Step::Rerep { .. }
@@ -216,6 +218,10 @@ fn one(w: &mut World, i: usize, st: &Step, c: &mut Counters) -> Result<Option<(u
                     // "reports malformed input as None or Err" (C15): an accept/reject disagreement of a decoder fed untrusted bytes
                     if untrusted(st) && matches!(label.as_str(), "some" | "ok" | "key_ok" | "sig_ok" | "repr_ok" | "valid") && !p.contains(&"C15".to_string()) {
                         p.push("C15".into());
+                    }
+                    // a point handed out with inconsistent coordinates is a C03 matter whichever operation produced it
+                    if matches!(label.as_str(), "repr_ok" | "aff" | "table_basepoint_representation_invalid") && is_group && !p.contains(&"C03".to_string()) {
+                        p.push("C03".into());
                     }
                     // the signer's verification wrappers are verification paths too (C09)
                     if (label.starts_with("wrapper_") || label == "self_verify") && !p.contains(&"C09".to_string()) {
